@@ -10,7 +10,7 @@ echo "|---|---|---|---|---|" >> $OUT.tmp
 for f in sensitivity/*.diff; do
   name=$(basename $f .diff)
   case $name in
-    c12-*|undo-fix-structure-types|undo-fix-used-intrinsics|undo-fix-const-fn-symbol|undo-fix-call-convention) checks="C12";;
+    c12-*|undo-fix-structure-types|undo-fix-used-intrinsics|undo-fix-const-fn-symbol|undo-fix-call-convention|undo-fix-void-main-status) checks="C12";;
     c13-*|undo-fix-crlf-spans|undo-fix-trailing-backslash-span|undo-fix-report-line-numbers|undo-fix-duplicate-external-function|undo-fix-silent-type-error|undo-fix-duplicate-label-location) checks="C13";;
     undo-fix-import-order) checks="C13 C12";;
     c18-*|undo-fix-out-dir-escape|undo-fix-artefact-collision|undo-fix-broken-pipe) checks="C18";;
